@@ -661,7 +661,7 @@ fn shard(ctx: &Ctx, s: usize, n_random: u64, thorough: bool, rep: &mut Report) {
                 let pic = if kind == 0 {
                     if flavour != Flavour::StdFixed && rng.chance(1, 2) {
                         let s2 = gen_size(&mut rng, 40);
-                        (w, h) = if flavour.sorenson() { s2 } else { (((s2.0 + 3) / 4 * 4).max(4), ((s2.1 + 3) / 4 * 4).max(4)) };
+                        (w, h) = if flavour.sorenson() { s2 } else { (((s2.0 + 3) / 4 * 4).clamp(4, 2048), ((s2.1 + 3) / 4 * 4).clamp(4, 1152)) };
                         cfg.w = w;
                         cfg.h = h;
                     }
